@@ -626,8 +626,18 @@ class HyASTCompiler:
 
     @builds_model(Integer, Float, Complex)
     def compile_numeric_literal(self, x):
-        return asty.Constant(x, value =
-            {Integer: int, Float: float, Complex: complex}[type(x)](x))
+        value = {Integer: int, Float: float, Complex: complex}[type(x)](x)
+        if repr(value).startswith("-"):
+            # Python has no negative literals, and `ast.unparse` prints
+            # a negative constant without parentheses, so that
+            # e.g. `(** -1 2)` would come out as `-1 ** 2`.
+            return asty.UnaryOp(x,
+                op = ast.USub(),
+                operand = asty.Constant(x, value =
+                    complex(0, -value.imag)
+                    if isinstance(value, complex)
+                    else -value))
+        return asty.Constant(x, value = value)
 
     @builds_model(Symbol)
     def compile_symbol(self, symbol):
